@@ -1,0 +1,75 @@
+/*
+ * Licensed to the Apache Software Foundation (ASF) under one or more
+ * contributor license agreements.  See the NOTICE file distributed with
+ * this work for additional information regarding copyright ownership.
+ * The ASF licenses this file to You under the Apache License, Version 2.0
+ * (the "License"); you may not use this file except in compliance with
+ * the License.  You may obtain a copy of the License at
+ *
+ *      http://www.apache.org/licenses/LICENSE-2.0
+ *
+ * Unless required by applicable law or agreed to in writing, software
+ * distributed under the License is distributed on an "AS IS" BASIS,
+ * WITHOUT WARRANTIES OR CONDITIONS OF ANY KIND, either express or implied.
+ * See the License for the specific language governing permissions and
+ * limitations under the License.
+ */
+
+//
+//  Observation points for external runtime monitors.  Everything in this
+//  file, and every use of XERCES_VERIF_POINT, is compiled only when
+//  XERCES_VERIF_HOOKS is defined; otherwise the macro expands to nothing.
+//  A hook never changes the library's control flow: the callback (null by
+//  default) only observes.
+//
+#if !defined(XERCESC_INCLUDE_GUARD_XERCESVERIFHOOKS_HPP)
+#define XERCESC_INCLUDE_GUARD_XERCESVERIFHOOKS_HPP
+
+#if defined(XERCES_VERIF_HOOKS)
+
+#include <xercesc/util/XercesDefs.hpp>
+
+XERCES_CPP_NAMESPACE_BEGIN
+
+class XMLUTIL_EXPORT VerifHooks
+{
+public:
+    enum Point
+    {
+        RawRefresh      = 1     // obj=reader, a=bytes carried over, b=bytes now available
+      , CharRefresh     = 2     // obj=reader, a=spare chars kept, b=chars now available
+      , EntityPush      = 3     // obj=reader mgr, a=1 if an entity decl is attached, b=stack depth
+      , MutexPre        = 4     // obj=mutex, before lock()
+      , MutexPost       = 5     // obj=mutex, after lock()
+      , MutexUnlock     = 6     // obj=mutex, after unlock()
+      , LazyEnter       = 7     // obj=object being lazily completed, a=site id
+      , LazyExit        = 8     // obj=same, a=site id
+    };
+    enum LazySite
+    {
+        SiteSchemaContentModel  = 1
+      , SiteDTDContentModel     = 2
+      , SiteRangeTokenMap       = 3
+      , SiteRangeLookup         = 4
+    };
+    typedef void (*HookFn)(int point, const void* obj, XMLSize_t a, XMLSize_t b);
+    static HookFn fgHook;
+};
+
+XERCES_CPP_NAMESPACE_END
+
+#define XERCES_VERIF_POINT(pt, obj, a, b) \
+    do { if (XERCES_CPP_NAMESPACE_QUALIFIER VerifHooks::fgHook) \
+        XERCES_CPP_NAMESPACE_QUALIFIER VerifHooks::fgHook((int)(XERCES_CPP_NAMESPACE_QUALIFIER VerifHooks::pt), (obj), (XMLSize_t)(a), (XMLSize_t)(b)); } while (0)
+
+#define XERCES_VERIF_POINT_IF(cond, pt, obj, a, b) \
+    do { if (cond) XERCES_VERIF_POINT(pt, obj, a, b); } while (0)
+
+#else
+
+#define XERCES_VERIF_POINT(pt, obj, a, b) ((void)0)
+#define XERCES_VERIF_POINT_IF(cond, pt, obj, a, b) ((void)0)
+
+#endif
+
+#endif
